@@ -1113,6 +1113,11 @@ func (f *fctx) call(x *ast.CallExpr, n int) []string {
 					return []string{"(bcmp_z " + f.expr(x.Args[0]) + " " + f.expr(x.Args[1]) + ")"}
 				case "bytes.HasPrefix":
 					return []string{"(has_prefix " + f.expr(x.Args[0]) + " " + f.expr(x.Args[1]) + ")"}
+				case "sort.Strings":
+					// in-place ascending sort of a []string variable (byte-wise order, as bytes.Compare)
+					cur := f.expr(x.Args[0])
+					f.pre = append(f.pre, f.setLHSw(x.Args[0], "(bsort "+cur+")", false))
+					return nil
 				case "bytes.TrimPrefix":
 					return []string{"(trim_prefix " + f.expr(x.Args[0]) + " " + f.expr(x.Args[1]) + ")"}
 				case "encoding/binary.PutUint16", "encoding/binary.PutUint32", "encoding/binary.PutUint64",
@@ -2215,6 +2220,9 @@ func (t *tr) emit(fi *fnInfo) (string, map[*types.Var]bool) {
 	rty := "unit"
 	if len(rtys) == 1 {
 		rty = rtys[0]
+		if strings.Contains(rty, " ") && !strings.HasPrefix(rty, "(") {
+			rty = "(" + rty + ")"
+		}
 	} else if len(rtys) > 1 {
 		rty = "(" + strings.Join(rtys, " * ") + ")"
 	}
@@ -2473,7 +2481,7 @@ func main() {
 	}
 	var b strings.Builder
 	fmt.Fprintf(&b, "(** GENERATED by /verif/translator from package %s (%s) — do not edit.\n    Regenerated from /repo on every check; the meaning of the combinators is in GoSem.v. *)\n", pname, *dir)
-	b.WriteString("From Verif Require Import Bytes Crc32 Dec ListDS.\nFrom VerifGo Require Import GoSem.\n")
+	b.WriteString("From Verif Require Import Bytes Crc32 Dec ListDS SetDS.\nFrom VerifGo Require Import GoSem.\n")
 	var mods []string
 	for _, ep := range t.ext {
 		mods = append(mods, ep.Module)
